@@ -4,7 +4,8 @@
 From Coq Require Import ZArith QArith Qabs Reals List Bool Arith.
 From Inkfem Require Import Num.NumOps Gen.GenLoads Gen.GenRecover Spec.Stiffness
   Model.Types Model.Slice Model.Loads Model.Dof Model.Assemble Model.Recover Spec.Resultant
-  Proofs.RecoverProofs Proofs.FieldProofs Proofs.LinearProofs Proofs.ScaleProofs Proofs.LinearBar Proofs.LinearStructure.
+  Proofs.RecoverProofs Proofs.FieldProofs Proofs.LinearProofs Proofs.ScaleProofs Proofs.LinearBar Proofs.LinearStructure
+  Gen.GenPcg Proofs.PcgProofs Proofs.PcgCovariance.
 Import ListNotations.
 
 (* equivalent nodal loads: linear in the load intensities, all real numbers *)
@@ -158,3 +159,14 @@ Proof.
   constructor; [| constructor]. constructor; try reflexivity.
   constructor; try reflexivity; (constructor; [repeat split; reflexivity | constructor]).
 Qed.
+
+(* scaling holds pass by pass inside the solver (exact arithmetic, model of its loop in Gen/GenPcg.v): the load vector is linear
+   in the loads (C06_structure_response_is_linear_in_the_load_values), the matrix does not depend on them, and with every load
+   multiplied by a factor every iterate of the loop - converged or not - is the old one multiplied by it.  (What is not scaled is
+   the absolute test that stops the loop: the check scales the error asked for together with the loads.) *)
+Theorem C06_scaling_the_loads_scales_every_iterate_of_the_solver :
+  forall (n : nat) (A : nat -> nat -> Q) (b : nat -> Q) (a : Q) (k i : nat),
+  (forall j, ~ A j j == 0) -> ~ a == 0 ->
+  pcg_answer n A (fun j => a * b j) k i == a * pcg_answer n A b k i.
+Proof. exact iterates_scale_with_the_loads. Qed.
+Print Assumptions C06_scaling_the_loads_scales_every_iterate_of_the_solver.
